@@ -20,15 +20,22 @@ mod native {
             let mut v = v.borrow_mut();
             // A counterexample trace ends at the first violated check: symbolic
             // values requested after that point are unconstrained; use zeros.
-            let x = v.pop_front().unwrap_or_else(|| {
-                eprintln!("REPLAY-NOTE: value past the end of the recorded trace, using zeros");
-                vec![0u8; n]
-            });
-            if x.len() != n {
-                eprintln!("REPLAY-MISMATCH: recorded {} bytes, harness wants {}", x.len(), n);
-                std::process::exit(3)
+            match v.front() {
+                None => {
+                    eprintln!("REPLAY-NOTE: value past the end of the recorded trace, using zeros");
+                    vec![0u8; n]
+                }
+                // CBMC's formula slicer removes symbolic values that cannot influence the
+                // failed check; they are then absent from the recorded list.  A width
+                // mismatch means the requested value is such a removed one: it is
+                // unconstrained, zeros are used and the recorded value stays for the
+                // next request of its width.
+                Some(x) if x.len() != n => {
+                    eprintln!("REPLAY-NOTE: recorded {} bytes, harness wants {}: value not in the trace, using zeros", x.len(), n);
+                    vec![0u8; n]
+                }
+                Some(_) => v.pop_front().unwrap(),
             }
-            x
         })
     }
 }
